@@ -28,13 +28,15 @@ func emitMix(out *Out, r *Rng, goroutines, rounds int) {
 	expiring := "https://ctx.example/expiring.jsonld"
 	nostore := "https://ctx.example/nostore.jsonld"
 	embedded := "https://ctx.example/embedded.jsonld"
+	stale := "https://ctx.example/stale.jsonld" // storable, but its lifetime is over at once: every read finds an expired entry
 	cfg := loaderCfg{cacheMode: []string{"memory", "virtual", "virtual"}[r.Intn(3)], embedded: map[string]int{embedded: 1234}}
 	o.docs[warm] = &orgEntry{ver: 11, policy: "max-age=3600"}
 	o.docs[expiring] = &orgEntry{ver: 22, policy: "max-age=3"}
 	o.docs[nostore] = &orgEntry{ver: 33, policy: "no-store"}
+	o.docs[stale] = &orgEntry{ver: 44, policy: "max-age=0"}
 	loader, ve := cfg.build(o)
 	// the schema context is served as a real document
-	ctxLoader := &ctxOrigin{scripted: o, extra: map[string][]byte{g.sch.URL: g.ContextDoc()}, policy: []string{"max-age=3600", "max-age=3", "no-store"}[r.Intn(3)]}
+	ctxLoader := &ctxOrigin{scripted: o, extra: map[string][]byte{g.sch.URL: g.ContextDoc()}, policy: []string{"max-age=3600", "max-age=3", "no-store", "max-age=0"}[r.Intn(4)]}
 	loader2, ve2 := loaderWithCtx(cfg, ctxLoader)
 	_ = loader
 	_ = ve
@@ -57,8 +59,8 @@ func emitMix(out *Out, r *Rng, goroutines, rounds int) {
 		}
 	}
 	hvWant, _ := merklize.HashValue(xsdNS+"integer", 12345)
-	urls := []string{warm, expiring, nostore, embedded, "https://ctx.example/missing.jsonld"}
-	want := map[string]int{warm: 11, expiring: 22, nostore: 33, embedded: 1234, "https://ctx.example/missing.jsonld": -1}
+	urls := []string{warm, expiring, nostore, embedded, "https://ctx.example/missing.jsonld", stale, stale}
+	want := map[string]int{warm: 11, expiring: 22, nostore: 33, embedded: 1234, "https://ctx.example/missing.jsonld": -1, stale: 44}
 	var mu sync.Mutex
 	var why []string
 	fail := func(s string) {
